@@ -1,0 +1,146 @@
+//! Verification hooks (cargo feature `verif`, off by default).
+//!
+//! Every hook is a pass-through unless a handler has been installed by an external
+//! verification harness:
+//!
+//! * [`tap`] and friends hand a labelled slice of values (a random draw, an intermediate
+//!   quantity) to a **thread-local** handler which may record and/or overwrite it;
+//! * [`sched`] hands a labelled event to a **process-global** handler which may block the
+//!   calling thread (controlled scheduling) and returns an integer answer (`0` when no
+//!   handler is installed).
+//!
+//! Nothing in here changes the behaviour of the library when no handler is installed.
+
+use burn::prelude::*;
+use num_traits::Float;
+use std::cell::RefCell;
+use std::sync::atomic::{AtomicBool, Ordering};
+use std::sync::{Arc, RwLock};
+
+/// Handler type of the thread-local value tap.
+pub type TapFn = Box<dyn FnMut(&'static str, &mut [f64])>;
+
+thread_local! {
+    static TAP: RefCell<Option<TapFn>> = const { RefCell::new(None) };
+}
+
+/// Installs (or removes) the tap handler of the calling thread; returns the previous one.
+pub fn set_tap(h: Option<TapFn>) -> Option<TapFn> {
+    TAP.with(|t| std::mem::replace(&mut *t.borrow_mut(), h))
+}
+
+/// Whether the calling thread has a tap handler installed.
+pub fn tap_active() -> bool {
+    TAP.with(|t| t.borrow().is_some())
+}
+
+/// Passes `vals` to the tap handler of the calling thread, if any.
+pub fn tap(label: &'static str, vals: &mut [f64]) {
+    let h = TAP.with(|t| t.borrow_mut().take());
+    if let Some(mut h) = h {
+        h(label, vals);
+        TAP.with(|t| {
+            let mut slot = t.borrow_mut();
+            if slot.is_none() {
+                *slot = Some(h);
+            }
+        });
+    }
+}
+
+/// Record-only convenience wrapper around [`tap`].
+pub fn rec(label: &'static str, vals: &[f64]) {
+    if tap_active() {
+        let mut v = vals.to_vec();
+        tap(label, &mut v);
+    }
+}
+
+/// Taps a scalar of any float type.
+pub fn tap_scalar<T: Float>(label: &'static str, v: T) -> T {
+    if !tap_active() {
+        return v;
+    }
+    let mut a = [v.to_f64().unwrap_or(f64::NAN)];
+    tap(label, &mut a);
+    T::from(a[0]).unwrap_or(v)
+}
+
+/// Taps a vector of any float type.
+pub fn tap_vec<T: Float>(label: &'static str, v: Vec<T>) -> Vec<T> {
+    if !tap_active() {
+        return v;
+    }
+    let mut a: Vec<f64> = v.iter().map(|x| x.to_f64().unwrap_or(f64::NAN)).collect();
+    tap(label, &mut a);
+    a.iter()
+        .zip(v.iter())
+        .map(|(x, old)| T::from(*x).unwrap_or(*old))
+        .collect()
+}
+
+/// Flattens a float tensor into `f64`s.
+pub fn tensor_to_f64<B: Backend, const D: usize>(t: &Tensor<B, D>) -> Vec<f64> {
+    t.to_data()
+        .convert::<f64>()
+        .to_vec::<f64>()
+        .expect("verif: tensor to f64 conversion")
+}
+
+/// Taps a float tensor (flattened row-major); the handler may overwrite its elements.
+pub fn tap_tensor<B: Backend, const D: usize>(label: &'static str, t: Tensor<B, D>) -> Tensor<B, D> {
+    if !tap_active() {
+        return t;
+    }
+    let mut a = tensor_to_f64(&t);
+    let before = a.clone();
+    tap(label, &mut a);
+    if a.iter().zip(before.iter()).all(|(x, y)| x.to_bits() == y.to_bits()) {
+        return t;
+    }
+    let dims: [usize; D] = t.dims();
+    let td = TensorData::new(a, dims).convert::<B::FloatElem>();
+    Tensor::<B, D>::from_data(td, &t.device())
+}
+
+/// Records a float tensor.
+pub fn rec_tensor<B: Backend, const D: usize>(label: &'static str, t: &Tensor<B, D>) {
+    if tap_active() {
+        let mut a = tensor_to_f64(t);
+        tap(label, &mut a);
+    }
+}
+
+/// Handler type of the global scheduling hook.
+pub type SchedFn = Arc<dyn Fn(&'static str, &[i64]) -> i64 + Send + Sync>;
+
+static SCHED_ON: AtomicBool = AtomicBool::new(false);
+static SCHED: RwLock<Option<SchedFn>> = RwLock::new(None);
+
+/// Installs (or removes) the global scheduling handler.
+pub fn set_sched(h: Option<SchedFn>) {
+    let mut slot = SCHED.write().unwrap_or_else(|e| e.into_inner());
+    SCHED_ON.store(h.is_some(), Ordering::SeqCst);
+    *slot = h;
+}
+
+/// Whether a scheduling handler is installed.
+pub fn sched_active() -> bool {
+    SCHED_ON.load(Ordering::SeqCst)
+}
+
+/// Reports a scheduling event; returns the handler's answer, or `0` without a handler.
+pub fn sched(label: &'static str, args: &[i64]) -> i64 {
+    if !sched_active() {
+        return 0;
+    }
+    let h = SCHED
+        .read()
+        .unwrap_or_else(|e| e.into_inner())
+        .as_ref()
+        .cloned();
+    match h {
+        Some(h) => h(label, args),
+        None => 0,
+    }
+}
